@@ -155,6 +155,21 @@ class Shade(enum.Enum):
 Point = collections.namedtuple("Point", "x y")
 
 
+class Quiet(object):
+    def __bool__(self):
+        return False
+
+
+class Hollow(object):
+    def __len__(self):
+        return 0
+
+
+class Flag(enum.IntEnum):
+    OFF = 0
+    ON = 1
+
+
 class Thing(object):
     def __init__(self):
         self.attr = 1
@@ -184,11 +199,15 @@ KINDS = {
     "fset_of_ref": lambda: frozenset([len, 1]), "slice_of_ref": lambda: slice([1], 2, None), "range": lambda: range(3),
     "exception": lambda: ValueError("x"), "iterator": lambda: iter([1, 2]), "generator": lambda: _gen(),
     "memoryview": lambda: memoryview(b"ab"), "dict_keys": lambda: {"a": 1}.keys(), "bigint_sub": lambda: MyInt(10 ** 30),
-    "bool_like": lambda: MyInt(1), "empty_mytuple": lambda: MyTuple(()), "code": lambda: (lambda: 0).__code__,
+    "bool_like": lambda: MyInt(1),
+    # falsy at their owner: nothing about finding or counting a proxy may depend on the remote object's truth value
+    "empty_list": lambda: [], "empty_dict": lambda: {}, "empty_set": lambda: set(), "empty_bytearray": lambda: bytearray(),
+    "zero_sub": lambda: MyInt(0), "zero_enum": lambda: Flag.OFF, "quiet": lambda: Quiet(), "hollow": lambda: Hollow(),
+    "empty_mystr": lambda: MyStr(""), "zero_float_sub": lambda: MyFloat(0.0), "empty_mytuple": lambda: MyTuple(()), "code": lambda: (lambda: 0).__code__,
 }
 MUTABLE = {"list": "append", "dict": "setitem", "set": "add", "bytearray": "append", "instance": "setattr"}
 PICKLABLE = ["list", "dict", "set", "bytearray", "mytuple", "myint", "namedtuple", "intenum", "instance"]
-B_KINDS = ["list", "dict", "func"]
+B_KINDS = ["list", "empty_dict", "func"]
 
 
 # ---------------------------------------------------------------------------------------------- one real conversation
@@ -224,7 +243,7 @@ class Session:
             MasterService._install(self.ca, self.ca.root)
             peer = self.ca.modules.box_peer
             self.fn = dict((n, getattr(peer, n)) for n in ("take", "take_keep", "echo", "make", "forget", "same_as_kept",
-                                                            "mutate", "ping"))
+                                                            "mutate", "ping", "unbox_raw"))
             for kind in B_KINDS:
                 self.register("b", KINDS[kind]())
             self.register("b", [0])          # B's object number len(B_KINDS): never lent, so a LOCAL_REF to it is stale
@@ -415,9 +434,8 @@ class Session:
             if kind == "raw":
                 text = self.raw_text(op[1])
                 try:
-                    v = self.cb._unbox(self.brine.load(self.brine.dump(self.raw_package(op[1]))))
-                    out = "%s => %s" % (text, self.describe(v, "b"))
-                    del v
+                    # unboxed on B's own thread (box_peer.unbox_raw): the package travels there as a plain value
+                    out = "%s => %s" % (text, self.fn["unbox_raw"](self.raw_package(op[1])))
                 finally:
                     # forged references have no box behind them: let their release notices be processed now, as the
                     # model does, not whenever A happens to serve next
@@ -460,7 +478,19 @@ class Session:
 
 
 def run_conversation(ops):
-    """returns (model op texts, real outputs, real-only findings)"""
+    """returns (model op texts, real outputs, real-only findings); a conversation that does not come to an end within
+    a generous wall-clock bound is reported as blocked (a request nobody answers), never waited for"""
+    import c10
+    status, res = c10.bounded(lambda: _run_conversation(ops), 30.0)
+    if status == "blocked":
+        raise c10.Blocked("the conversation did not come to an end: a request issued while a message was being "
+                          "unboxed was never answered")
+    if status == "raised":
+        raise res
+    return res
+
+
+def _run_conversation(ops):
     s = Session()
     try:
         texts, outs = [], []
@@ -735,9 +765,17 @@ def extras_overtake():
     return c10.extra_release_overtakes()
 
 
+def extras_falsy():
+    """falsy objects received again while their proxy lives are that same proxy (shared with C10)"""
+    import c10
+    return c10.extra_falsy_baton()
+
+
 def all_extras():
-    return (("mutation-through-proxy", extras_mutation), ("obtain-deliver", extras_copy), ("two-hops", extras_chain),
-            ("release-overtakes-reference", extras_overtake))
+    import c10
+    table = (("mutation-through-proxy", extras_mutation), ("obtain-deliver", extras_copy), ("two-hops", extras_chain),
+             ("release-overtakes-reference", extras_overtake), ("falsy-objects", extras_falsy))
+    return tuple((name, c10._bounded_extra(name, fn)) for name, fn in table)
 
 
 def extras_chain():
@@ -797,6 +835,17 @@ def strip_ids(text):
 
 def oracle_conversation(ops):
     """the property statement evaluated on the real code for one conversation; None if it holds"""
+    import c10
+    status, res = c10.bounded(lambda: _oracle_conversation(ops), 30.0)
+    if status == "blocked":
+        return ("the conversation did not come to an end: a request issued while a value was being received was never "
+                "answered (receiving a value must not depend on the peer answering)")
+    if status == "raised":
+        return "the conversation raised %s" % type(res).__name__
+    return res
+
+
+def _oracle_conversation(ops):
     errs = []
     s = None
     try:
